@@ -42,7 +42,7 @@ Extraction "model.ml"
   R11.init R11.step R11.rt R11.rt_class R11.locktime
   ub_fit is_conf_out calc_asset_hash calc_token_hash o_nonce_hash o_asset_commitment o_value_commitment
   o_range_proof o_verify_range_proof o_blind_output o_blind_issuance_amount o_unblind_with_key
-  o_unblind_with_nonce o_unblind_issuance o_last_value_range_proof
+  o_unblind_with_nonce o_unblind_issuance o_last_value_range_proof o_gen_run
   B32.decode B32.decode_generic B32.encode B32.convert_bits B32.to_upper B32.BLECH32 B32.BLECH32M
   compute_entropy compute_asset compute_token new_from_input new_tx_issuance contract_json
   v0_add_issuance v0_add_reissuance v2_add_in_issuance v2_add_in_reissuance
